@@ -15,6 +15,7 @@
 
 #include <fmt/core.h>
 
+#include <exception>
 #include <string>
 #include <string_view>
 #include <optional>
@@ -214,6 +215,12 @@ int main(int argc, char** argv)
 #ifdef SBEPP_VERIF
         SBEPP_VERIF_PHASE("error");
 #endif
+        reporter.error(e.what());
+        return 1;
+    }
+    catch(const std::exception& e)
+    {
+        // `std::bad_alloc`, `std::filesystem::filesystem_error`, etc.
         reporter.error(e.what());
         return 1;
     }
